@@ -126,8 +126,8 @@ var wzPredeclaredFuncs = [...]struct {
 	_Make:    {token.K_构建, 1, true, expression},
 	_New:     {token.K_新建, 1, true, expression},
 	_Panic:   {token.K_崩溃, 1, false, statement},
-	_Print:   {token.K_输出, 0, true, statement},
-	_Println: {token.K_打印, 0, true, statement},
+	_Print:   {token.K_打印, 0, true, statement},
+	_Println: {token.K_输出, 0, true, statement},
 	_Real:    {token.K_实部, 1, false, expression},
 
 	_unsafe_Raw:        {token.K_unsafe_原生, 1, false, expression},
